@@ -5,13 +5,18 @@ TECHNIQUE = 'bounded model checking of the compiled code (Kani/CBMC, SAT): Ancho
 FUNCTIONS = []
 BOUNDS = ['keys, signer flags and relevant account fields fully symbolic; account data sizes fixed to the real LEN of each account type']
 ASSUMPTIONS = [
+    'reward_index < 3 (index >= 3 panics in the generated code); PDA seeds hashed by an ideal-hash memo only for <= 3 seeds of <= 32 bytes (asserted); CPI helpers record their arguments; Clock::get arbitrary; Rent::get fails (prefix)',
     'error conversions replaced by code-preserving stubs; message formatting stubbed',
     'sysvar syscalls (Clock/Rent) stubbed: prefix harnesses stop at the first sysvar call',
     'PDA derivation (sha256 + curve check) is not executed symbolically: structs with seeds= are checked up to the PDA comparison with an ideal-hash stub or excluded (listed in OUTSIDE)',
 ]
-OUTSIDE = ['account bytes unchanged on failure (runtime guarantee, not program code)',
+OUTSIDE = ['lock_position try_accounts (init with System CPIs: spurious model failures / out of memory) — its handler is in C18; v1 collect handlers struct+handler in one harness (out of memory): struct by Kani, handler by Engine M handler mode', 'tick-array / oracle content checks of swap after Clock::get (tick-array back-reference: C10 builder harness)','account bytes unchanged on failure (runtime guarantee, not program code)',
            'init-constraint instructions are checked up to the first System-program CPI']
 
 
 def run(ctx):
+    # two-hop (24 Anchor accounts: the Kani struct+handler harness ran out of memory): distinct pools and shared intermediate mint are decided by Engine M in handler mode
+    from props import mextra
+    ctx.mir()
+    ctx.parallel(mextra.c15_tasks(), max_procs=2)
     ctx.run_kani(['c04.rs', 'c04p.rs', 'c15.rs'])
